@@ -376,6 +376,21 @@ func TestVerif_C17_AuthMatrix(t *testing.T) {
 			c17Rec.ClassIf(ownPassword, "own_password_exception")
 			c17Rec.ClassIf(sufficient, "sufficient")
 		}
+		// whatever was drawn: what the global administrator is shown of every group that still exists, its user list, its
+		// fallback user and its empty-name user contains none of the secrets
+		root := map[string]string{"Authorization": basic("root", "rootpw-MARKSECRETroot")}
+		for _, g := range []string{w.g1, w.g2, w.sub, w.legacy, w.sibling} {
+			p := "/galene-api/v0/.groups/" + g
+			for _, path := range []string{p, p + "/.users/", p + "/.wildcard-user", p + "/.empty-user", p + "/.users/alice", p + "/.users/lop"} {
+				r, err := rig.raw("GET", path, root, nil)
+				if err != nil {
+					t.Fatalf("C12: GET %s: no HTTP response: %v", path, err)
+				}
+				if m := containsAny(string(r.Body), w.secrets); m != "" {
+					t.Fatalf("C17: GET %s (global administrator, status %d) discloses a secret (%q): %s", path, r.Status, m, trunc(r.Body))
+				}
+			}
+		}
 	})
 }
 
